@@ -33,6 +33,7 @@ func init() {
 			codecAgreement(r)
 			errorMapping(r)
 			pipelineMirrorsClient(r)
+			pipelineIndex(r)
 			handlerLookup(r)
 			unitAgreement(r)
 			c07ClientTargetsOwner(r)
